@@ -296,28 +296,6 @@ def parseSpec (src tgt instrs deps : String) : Option Spec := do
     | _ => none
   some { src := splitNE src ",", tgt := (splitNE tgt ",").map parseAtom, instrs := us, deps := ds }
 
-/-- SPECCHK: conflicts ordered? every given schedule admissible and matching the block? -/
-def handleSpecChk (nf : Normaliser) (block src tgt instrs deps scheds : String) : String :=
-  match parseBlock? block, parseSpec src tgt instrs deps with
-  | some B, some S =>
-    let Ls := (scheds.splitOn "|").map (splitNE · ",")
-    match Ls with
-    | [] => "error:no-schedule"
-    | L0 :: _ =>
-      match firstConflict nf S L0 with
-      | some (a, b) => s!"conflict:{a},{b}"
-      | none =>
-        match Ls.zipIdx.find? (fun (L, _) => !(respectsDeps S L)) with
-        | some (_, i) => s!"error:schedule-{i}-not-admissible"
-        | none =>
-          match Ls.zipIdx.find? (fun (L, _) => !(scheduleMatches nf S L B)) with
-          | some (L, i) =>
-            match evalSpec S L with
-            | none => s!"error:schedule-{i}-does-not-evaluate"
-            | some _ => s!"mismatch:{i}:{",".intercalate L}"
-          | none => s!"ok:{Ls.length}"
-  | _, _ => "error:parse"
-
 def handleRealizes (src tgt instrs deps ids : String) : String :=
   match parseSpec src tgt instrs deps with
   | some S =>
